@@ -1,3 +1,4 @@
+\* 2 calls, 2 connection generations.  Measured: 35,221 states generated, 10,645 distinct, depth 21 (22 s).
 SPECIFICATION Spec
 CONSTANTS
   Calls = {"a", "b"}
